@@ -116,13 +116,13 @@ let classify (has_unknown : bool) (tuple : z list) (pkt : z list) : ps_event opt
       let name = uri_path m in
       (match int_of_z m.m_code with
        | 3 -> if has_unknown then
-                (match app_fn pkt with Some (n, o) -> Some (EvPut (n, o, pkt)) | None -> None)
+                (match app_fn pkt with Some (n, o) -> Some (PsEvPut (n, o, pkt)) | None -> None)
               else None
-       | 4 -> Some (EvDel name)
+       | 4 -> Some (PsEvDel name)
        | 1 | 5 ->
            (match observe_opt m with
-            | Some 0 -> Some (EvReg (name, tuple, m.m_token, cache_key m, pkt))
-            | Some 1 -> Some (EvCancel (name, tuple, m.m_token, cache_key m))
+            | Some 0 -> Some (PsEvReg (name, tuple, m.m_token, cache_key m, pkt))
+            | Some 1 -> Some (PsEvCancel (name, tuple, m.m_token, cache_key m))
             | _ -> None)
        | _ -> None)
 
@@ -146,44 +146,44 @@ let c17 toks =
       let pol = if buf = "E" then ps_pol_eager else ps_pol_lazy in
       let nfiles = if buf = "D" then 3 else 6 in
       let has c i = String.length cfg > i && cfg.[i] = c in
-      let c = { cf_dyn = has 'd' 0; cf_obs = has 'o' 1; cf_cnt = has 'c' 2;
-                cf_freq = (let f = int_of_string freq in zi (string_of_int (if f = 0 then 1 else f)));
-                cf_la = zi la; cf_lt = zi lt; cf_listen = bytes_of_tok listen;
-                cf_proto = bytes_of_tok proto; cf_unknown = not (has 'u' 3);
-                cf_fuel = ps_nat_of_int 200000 O } in
+      let c = { psc_dyn = has 'd' 0; psc_obs = has 'o' 1; psc_cnt = has 'c' 2;
+                psc_freq = (let f = int_of_string freq in zi (string_of_int (if f = 0 then 1 else f)));
+                psc_la = zi la; psc_lt = zi lt; psc_listen = bytes_of_tok listen;
+                psc_proto = bytes_of_tok proto; psc_unknown = not (has 'u' 3);
+                psc_fuel = ps_nat_of_int 200000 O } in
       let alloc = ps_alloc_lowest (z_of_int 0x7e0000000000) (z_of_int 512) in
       let client_of tuple =
         let r = ref (-1) in
         Array.iteri (fun i t -> if !r < 0 && t = tuple then r := i) tuples; !r in
-      let m0 = [ { rs_name = bytes_of_string "s0"; rs_observable = true; rs_observe = pS_OBSERVE0; rs_subs = [] };
-                 { rs_name = bytes_of_string "s1"; rs_observable = true; rs_observe = pS_OBSERVE0; rs_subs = [] } ] in
-      let fuel = c.cf_fuel in
+      let m0 = [ { psr_name = bytes_of_string "s0"; psr_observable = true; psr_observe = pS_OBSERVE0; psr_subs = [] };
+                 { psr_name = bytes_of_string "s1"; psr_observable = true; psr_observe = pS_OBSERVE0; psr_subs = [] } ] in
+      let fuel = c.psc_fuel in
       let fidx ch = match ch with 'd' -> 0 | 'o' -> 1 | _ -> 2 in
       let rec parse_ev toks =
         match toks with
         | [] -> []
         | "I" :: cl :: pkt :: tl ->
             let t = tuples.(int_of_string cl land 7) in
-            (match classify c.cf_unknown t (bytes_of_tok pkt) with
+            (match classify c.psc_unknown t (bytes_of_tok pkt) with
              | Some e -> Ev e :: parse_ev tl
              | None -> parse_ev tl)
-        | "N" :: nm :: tl -> Ev (EvNotify (bytes_of_tok nm)) :: parse_ev tl
+        | "N" :: nm :: tl -> Ev (PsEvNotify (bytes_of_tok nm)) :: parse_ev tl
         | "X" :: k :: tl -> Crash (int_of_string k) :: parse_ev tl
         | "W" :: f :: b :: tl -> WriteFile (PsBase (z_of_int (fidx f.[0])), bytes_of_tok b) :: parse_ev tl
         | "UA" :: key :: tup :: pkt :: osc :: tl ->
-            let o = { ob_key = bytes_of_tok key; ob_proto = c.cf_proto; ob_listen = c.cf_listen;
-                      ob_tuple = bytes_of_tok tup; ob_pkt = bytes_of_tok pkt;
-                      ob_osc = (if osc = "~" then None else Some (bytes_of_tok osc)) } in
-            Ev (EvRaw (ps_obs_added c.cf_la c.cf_lt fuel o)) :: parse_ev tl
+            let o = { pso_key = bytes_of_tok key; pso_proto = c.psc_proto; pso_listen = c.psc_listen;
+                      pso_tuple = bytes_of_tok tup; pso_pkt = bytes_of_tok pkt;
+                      pso_osc = (if osc = "~" then None else Some (bytes_of_tok osc)) } in
+            Ev (PsEvRaw (ps_obs_added c.psc_la c.psc_lt fuel o)) :: parse_ev tl
         | "UD" :: key :: tl ->
-            Ev (EvRaw (ps_obs_deleted c.cf_la c.cf_lt fuel (bytes_of_tok key))) :: parse_ev tl
-        | "UT" :: nm :: v :: tl -> Ev (EvRaw (ps_cnt_track fuel (bytes_of_tok nm) (zi v))) :: parse_ev tl
-        | "UC" :: nm :: tl -> Ev (EvRaw (ps_cnt_deleted fuel (bytes_of_tok nm))) :: parse_ev tl
+            Ev (PsEvRaw (ps_obs_deleted c.psc_la c.psc_lt fuel (bytes_of_tok key))) :: parse_ev tl
+        | "UT" :: nm :: v :: tl -> Ev (PsEvRaw (ps_cnt_track fuel (bytes_of_tok nm) (zi v))) :: parse_ev tl
+        | "UC" :: nm :: tl -> Ev (PsEvRaw (ps_cnt_deleted fuel (bytes_of_tok nm))) :: parse_ev tl
         | "UR" :: nm :: pkt :: tl ->
-            Ev (EvRaw (ps_dyn_added fuel { dy_proto = c.cf_proto; dy_name = bytes_of_tok nm;
-                                           dy_pkt = bytes_of_tok pkt })) :: parse_ev tl
+            Ev (PsEvRaw (ps_dyn_added fuel { psd_proto = c.psc_proto; psd_name = bytes_of_tok nm;
+                                           psd_pkt = bytes_of_tok pkt })) :: parse_ev tl
         | "UX" :: nm :: tl ->
-            Ev (EvRaw (ps_res_deleted fuel c.cf_dyn c.cf_cnt (bytes_of_tok nm))) :: parse_ev tl
+            Ev (PsEvRaw (ps_res_deleted fuel c.psc_dyn c.psc_cnt (bytes_of_tok nm))) :: parse_ev tl
         | _ -> failwith "bad event" in
       let events = parse_ev evtoks in
       let show_sends (l : ((z list * z list) * z) list) (stamp : int) (ev : int) =
@@ -191,12 +191,12 @@ let c17 toks =
             (stamp, Printf.sprintf "%d/%s/%d@%d#%d" (client_of tu) (hex_full tok) (int_of_z v) stamp ev)) l in
       (* one process: startup, then events one at a time (to stamp the sends) *)
       let res_line (r : ps_rsrc) =
-        Printf.sprintf "%s:%d:%d:%s" (hex_full r.rs_name) (if r.rs_observable then 1 else 0)
-          (int_of_z r.rs_observe)
-          (if r.rs_subs = [] then "-" else
+        Printf.sprintf "%s:%d:%d:%s" (hex_full r.psr_name) (if r.psr_observable then 1 else 0)
+          (int_of_z r.psr_observe)
+          (if r.psr_subs = [] then "-" else
              String.concat "+" (List.map (fun (su : ps_sub) ->
-                 Printf.sprintf "%d/%s/%x" (client_of su.su_tuple) (hex_full su.su_token)
-                   (List.fold_right (fun b a -> a * 256 + int_of_z b) su.su_key 0)) r.rs_subs)) in
+                 Printf.sprintf "%d/%s/%x" (client_of su.pss_tuple) (hex_full su.pss_token)
+                   (List.fold_right (fun b a -> a * 256 + int_of_z b) su.pss_key 0)) r.psr_subs)) in
       let dump_mem (m : ps_mem) =
         let lines = List.sort compare (List.map res_line m) in
         if lines = [] then "-" else String.concat "|" lines in
@@ -235,8 +235,8 @@ let c17 toks =
         | Some (Some m) ->
             let lines = List.sort compare (List.map res_line m) in
             let names = List.sort compare
-                (List.map (fun (r : ps_rsrc) -> hex_full r.rs_name)
-                   (List.filter (fun (r : ps_rsrc) -> r.rs_subs <> []) m)) in
+                (List.map (fun (r : ps_rsrc) -> hex_full r.psr_name)
+                   (List.filter (fun (r : ps_rsrc) -> r.psr_subs <> []) m)) in
             let files = files_text s1.ps_fs 3 in
             let rec notify names m s nops sends i =
               match names with
